@@ -1,6 +1,9 @@
 """C12 — expired messages are never executed; live ones are never dropped (in-memory broker)."""
 from ..common import Ctx, Failure, Result
-from .. import memrun
+from .. import coqterm as ct
+from .. import memrun, runmodel
+from ..clock import CLOCK
+from ..pyparams import enc_params, mk_params, params_term
 from . import _mem
 
 S = memrun.S
@@ -65,6 +68,14 @@ def extra(hist: dict, r: dict) -> list:
         where = {"step": n, "op": {k: v for k, v in e.items() if k not in ("after", "params", "got", "polls")}}
         if e["op"] in ("put", "requeue") and e.get("applied"):
             expiry[e["id"]] = _mem.expiry_of(e["params"])
+        if e["op"] == "requeue" and e.get("how") == "requeue_resched":
+            # time-to-live counts from the latest scheduling: a rescheduled message starts a new clock
+            if ct.us_of_dt(e["params"].timestamp) != e["t"] or e["params"].ttl != e["params_before"].ttl:
+                bad.append(("reschedule_keeps_old_clock", f"message {e['id']} rescheduled at {e['t']} carries timestamp "
+                            f"{ct.us_of_dt(e['params'].timestamp)}", where))
+        if e["op"] == "requeue" and e.get("how") == "requeue_retry":
+            if e["params"].timestamp != e["params_before"].timestamp or e["params"].ttl != e["params_before"].ttl:
+                bad.append(("retry_restarts_clock", f"retry of message {e['id']} changed its timestamp or ttl", where))
         if e["op"] == "ack" and e.get("applied"):
             acked.add(e["id"])
         if e["op"] in ("consume", "consume_many"):
@@ -107,8 +118,60 @@ def run(ctx: Ctx) -> Result:
             if kind not in seen:
                 seen.add(kind)
                 res.failures.append(Failure(kind, what, {"history": _mem.strip(h), "where": where}, None))
+    sched_cases(ctx, res, rng)
     return res
 
 
+def sched_cases(ctx: Ctx, res: Result, rng) -> None:
+    """The real _prepare_reschedule / _prepare_retry / is_overdue against Sched.v, for messages with a time-to-live,
+    recurring or not, at instants on both sides of the expiry."""
+    from datetime import timedelta
+    intern = ct.Interner()
+    cases = []
+    for _ in range(ctx.scale(1500, 20000)):
+        ts = 1_700_000_000 * S + rng.randint(0, 10 * S)
+        ttl = rng.choice([None, 1000, S, 10 * S, rng.randint(1, 100 * S)])
+        by = rng.choice([None, None, S, 10 * S])
+        until = rng.choice([None, None, ts - S, ts + 5 * S])
+        nxt = rng.choice([None, None, ts + 2 * S])
+        p = mk_params(until=until, by=by, nxt=nxt, ts=ts, tried=rng.randint(0, 3), max_amount=rng.randint(0, 3), ttl=ttl)
+        now = ts + (ttl or S) + rng.choice([-1, 0, 1, -S, S, 3 * S, 100 * S])
+        CLOCK.set(now)
+        pt = params_term(p, intern)
+        q = p._prepare_reschedule()
+        cases.append((f"(CResched {pt} {ct.Z(now)})", enc_params(q, intern)))
+        res.add_case(cases[-1][0], ttl is not None)
+        if ct.us_of_dt(q.timestamp) != now or q.ttl != p.ttl:
+            res.failures.append(Failure("reschedule_keeps_old_clock", f"_prepare_reschedule at {now}: timestamp {ct.us_of_dt(q.timestamp)}",
+                                        {"params": str(p), "now": now}, None))
+        else:
+            later = now + (ttl or 0)
+            CLOCK.set(later)
+            if q.is_overdue:
+                res.failures.append(Failure("rescheduled_message_expires_early", "overdue within ttl of the reschedule", {"params": str(p), "now": now}, None))
+            CLOCK.set(now)
+        back = rng.choice([0, 1000, 5 * S])
+        r = p._prepare_retry(timedelta(microseconds=back))
+        cases.append((f"(CRetry {pt} {ct.Z(now)} {ct.Z(back)})", enc_params(r, intern)))
+        if r.timestamp != p.timestamp or r.ttl != p.ttl:
+            res.failures.append(Failure("retry_restarts_clock", "_prepare_retry changed timestamp/ttl", {"params": str(p)}, None))
+        got = p.is_overdue
+        cases.append((f"(COverdue {ct.Z(ts)} {ct.opt(ttl)} {ct.Z(now)})", [1 if got else 0]))
+        if got != (ttl is not None and now > ts + ttl):
+            res.failures.append(Failure("overdue_rule_wrong", f"is_overdue={got} at now-ts-ttl={now - ts - (ttl or 0)}", {"params": str(p), "now": now}, None))
+        res.count("sched_cases", 3)
+    bad, mo = runmodel.run_cases("c12s", "Sched", "sched_obs", cases, shard=500)
+    for i in bad:
+        res.mismatches.append({"relation": "sched_obs", "coq": cases[i][0], "impl_obs": cases[i][1], "model_obs": mo.get(i)})
+    res.model_cases += len(cases)
+    res.traces_validated += len(cases) - len(bad)
+    res.relations.append("sched_obs: _prepare_reschedule / _prepare_retry / is_overdue")
+
+
 def replay(ctx: Ctx, rp: dict) -> dict:
+    case = rp.get("case") or {}
+    if "history" not in case and "first_diverging_case" not in rp:
+        res = Result()
+        sched_cases(ctx, res, ctx.rng())
+        return {"oracle": [(f.kind, f.what) for f in res.failures][:10], "fails": bool(res.failures)}
     return _mem.replay_history(ctx, rp, WHICH, extra=extra)
